@@ -81,6 +81,19 @@ def grid(dialect, quotes):
         out.append(("alias", f"insert into tgt_t select {a}.c1 from src_t {a}", {"source": ["<default>.src_t"], "target": ["<default>.tgt_t"], "pairs": [["<default>.src_t.c1", "<default>.tgt_t.c1"]]}, None, None))
         out.append(("alias_as", f"insert into tgt_t select {a}.c1 from src_t as {a}", {"source": ["<default>.src_t"], "target": ["<default>.tgt_t"], "pairs": [["<default>.src_t.c1", "<default>.tgt_t.c1"]]}, None, None))
         out.append(("derived_alias", f"insert into tgt_t select {a}.c1 from (select c1 from src_t) {a}", {"source": ["<default>.src_t"], "target": ["<default>.tgt_t"], "pairs": [["<default>.src_t.c1", "<default>.tgt_t.c1"]]}, None, None))
+        # qualified wildcard through the spelled alias: over a table, over a derived table (expands to its columns), over a schema-qualified table
+        out.append(("alias_star", f"insert into tgt_t select {a}.* from src_t {a}", {"source": ["<default>.src_t"], "target": ["<default>.tgt_t"], "pairs": [["<default>.src_t.*", "<default>.tgt_t.*"]]}, None, None))
+        out.append(("derived_alias_star", f"insert into tgt_t select {a}.* from (select c1, c2 from src_t) {a}",
+                    {"source": ["<default>.src_t"], "target": ["<default>.tgt_t"], "pairs": [["<default>.src_t.c1", "<default>.tgt_t.c1"], ["<default>.src_t.c2", "<default>.tgt_t.c2"]]}, None, None))
+        out.append(("alias_star_qualified_table", f"insert into tgt_t select {a}.* from scy.src_t {a}", {"source": ["scy.src_t"], "target": ["<default>.tgt_t"], "pairs": [["scy.src_t.*", "<default>.tgt_t.*"]]}, None, None))
+        if q is None:
+            # unquoted identifiers compare case-insensitively: defined in one case pattern, referenced in another
+            other = spell("alq", {"lower": "upper", "upper": "mixed", "mixed": "lower"}[case], None)
+            out.append(("alias_other_case", f"insert into tgt_t select {other}.c1, {other}.* from src_t {a}",
+                        {"source": ["<default>.src_t"], "target": ["<default>.tgt_t"], "pairs": [["<default>.src_t.*", "<default>.tgt_t.*"], ["<default>.src_t.c1", "<default>.tgt_t.c1"]]}, None, None))
+            oc = spell("colq", {"lower": "upper", "upper": "mixed", "mixed": "lower"}[case], None)
+            out.append(("column_other_case_across_statements", f"insert into mid_t select {c} from src_t; insert into fin_t select {oc} from mid_t",
+                        {"source": ["<default>.src_t"], "target": ["<default>.fin_t"], "intermediate": ["<default>.mid_t"], "pairs": [["<default>.src_t.colq", "<default>.fin_t.colq"]]}, None, None))
         out.append(("cte_name", f"insert into tgt_t with {a} as (select c1 from src_t) select {a}.c1 from {a}", {"source": ["<default>.src_t"], "target": ["<default>.tgt_t"], "pairs": [["<default>.src_t.c1", "<default>.tgt_t.c1"]]}, None, None))
     return out
 
